@@ -180,9 +180,9 @@ Print Assumptions harness_cases_are_covered.
 (* ------------------------------------------------------------------ *)
 (* key 1 -> a running sum, key 2 -> a timer body (arms now+3 on every tick, emits
    when it fires), default -> a self-scheduling ticker taking the key. *)
-Definition ex_acc    : bparams := mkBP false true false false false 1 0 1 0 1 0 0.
-Definition ex_timer  : bparams := mkBP false false true true false 3 100 1 0 1 0 0.
-Definition ex_ticker : bparams := mkBP true true true false true 2 200 1 1 0 0 1.
+Definition ex_acc    : bparams := mkBP false true false false false 1 0 1 0 1 0 0 false.
+Definition ex_timer  : bparams := mkBP false false true true false 3 100 1 0 1 0 0 false.
+Definition ex_ticker : bparams := mkBP true true true false true 2 200 1 1 0 0 1 false.
 Definition ex_sp : swspec :=
   mkSw 1 false [(1, mkBr false (table_body ex_acc)); (2, mkBr false (table_body ex_timer))]
        (Some (mkBr true (table_body ex_ticker))) false.
@@ -227,7 +227,7 @@ Proof. vm_compute. repeat split; reflexivity. Qed.
    while the set is {1,2,3} and the held input is 3.  The same branch graph is rebuilt; the
    hypotheses of theorem 2b hold there, the output at 4 is {3} with removed {1,2} (3 is
    re-published, so it is in neither added nor removed), and 4 joins at 5. *)
-Definition ex_pub : bparams := mkBP false true false false false 1 0 0 1 0 0 0.
+Definition ex_pub : bparams := mkBP false true false false false 1 0 0 1 0 0 0 false.
 Definition ex_set_sp : swspec := mkSw 1 true [(1, mkBr false (table_body ex_pub))] None true.
 Definition ex_set_h : hist := [(0, 1, 1); (1, 1, 1); (1, 2, 2); (1, 3, 3); (0, 4, 1); (1, 5, 4)].
 Example ex_same_branch_rebuilt :
